@@ -189,7 +189,8 @@ DoAddSub(H, c, s, f, rootLink) ==
   AppendKid(Extend(H, CopyRecords(H, s, f, c, rootLink)), c, f[s])
 
 \* explicit copy of a circuit: a new top-level circuit
-DoCopyCirc(H, s, f) == Extend(H, CopyRecords(H, s, f, None, H[s].link))
+\* (the copy's own relation: re-pointed like any other; a relation to something outside the copied structure is dropped)
+DoCopyCirc(H, s, f) == Extend(H, CopyRecords(H, s, f, None, MapLink(H[s].link, f)))
 
 \* ----------------------------------------------------------------- masking
 \* replace_operation(circuit, masks) of circuit_modifiers.py rebuilds a (flat) circuit operation by operation: each
